@@ -95,6 +95,13 @@ func (c *FnCtx) callCommon(call *ssa.CallCommon, v ssa.Value, pos token.Pos) []s
 				key = key + "@" + self
 			}
 		}
+	} else if fk, obj, ok := c.fieldFuncCall(call); ok && c.eng.specs.Contracts[fk] != nil {
+		// a call of the function stored in a field of an object: an assumed contract may be given for
+		// it as "external field.T.f(obj, args...)", with the object holding the field as first parameter
+		key = fk
+		con = c.eng.specs.Contracts[fk]
+		args = append([]string{obj.t}, args...)
+		argTypes = append([]types.Type{obj.ty}, argTypes...)
 	} else if call.IsInvoke() {
 		key = "iface:" + typeKey(call.Value.Type()) + "." + call.Method.Name()
 		con = c.eng.specs.Contracts[types.TypeString(types.Unalias(call.Value.Type()), nil)+"."+call.Method.Name()]
@@ -156,6 +163,38 @@ func (c *FnCtx) callCommon(call *ssa.CallCommon, v ssa.Value, pos token.Pos) []s
 	validateResults(out)
 	c.assumeTypeInvsAfterCall(callee, args, argTypes, out, sig)
 	return out
+}
+
+// fieldFuncCall recognises x.f(...) where f is a function-typed field of a struct of the verified
+// packages, and returns the contract key "field.T.f" and the object x.
+func (c *FnCtx) fieldFuncCall(call *ssa.CallCommon) (string, sv, bool) {
+	if call.IsInvoke() {
+		return "", sv{}, false
+	}
+	ld, ok := call.Value.(*ssa.UnOp)
+	if !ok || ld.Op != token.MUL {
+		return "", sv{}, false
+	}
+	fa, ok := ld.X.(*ssa.FieldAddr)
+	if !ok {
+		return "", sv{}, false
+	}
+	pt, ok := types.Unalias(fa.X.Type()).Underlying().(*types.Pointer)
+	if !ok {
+		return "", sv{}, false
+	}
+	named, ok := types.Unalias(pt.Elem()).(*types.Named)
+	if !ok {
+		return "", sv{}, false
+	}
+	st, ok := named.Underlying().(*types.Struct)
+	if !ok || fa.Field >= st.NumFields() {
+		return "", sv{}, false
+	}
+	if _, hasTerm := c.vals[fa.X]; !hasTerm {
+		return "", sv{}, false
+	}
+	return "field." + named.Obj().Name() + "." + st.Field(fa.Field).Name(), sv{c.vals[fa.X], fa.X.Type()}, true
 }
 
 // capturedWritten: names of free variables a closure contract declares it writes (cell(name)).
